@@ -497,6 +497,17 @@ func (f *Frame) applyContractFn(fc *FuncContract, callee *ssa.Function, name str
 	f.closureSummaries(args, st)
 	pre := &SpecEnv{W: f.w, Vars: vars, Heap: st.Heap, Old: st.Heap, Scope: fc.ScopePkg, Side: vc}
 	site := vc.Ordinal(f.label + "#pre@" + name)
+	if callee != nil && callee == vc.entryFn && fc.Decreases != nil && !vc.entryMeasure.IsZero() {
+		// a call of the verified function to itself: the measure drops and stays non-negative
+		pre.Scope = fc.ScopePkg
+		if v, err := pre.Eval(fc.Decreases.E); err != nil {
+			f.fail("decreases at the recursive call: %v", err)
+		} else {
+			m := pre.value(v).T
+			vc.Oblige(f.label, "decreases@"+name, fmt.Sprintf("%d", site), st.PC, And(Ge(m, IntLit(0)), Lt(m, vc.entryMeasure)),
+				"recursive call: "+fc.Decreases.Src+" decreases and stays >= 0 at "+f.pos(ins))
+		}
+	}
 	for k, r := range clauses.requires {
 		pre.Scope = r.scope
 		t, err := pre.EvalBool(r.c)
